@@ -7,17 +7,26 @@ Record case := mkcase {
   c_schema : schema;          (* annotations and (effective) definition defaults *)
   c_inst : inst;              (* the instance that was saved *)
   c_suffix : string;          (* ".json" | ".yaml" | ".yml" | ".pkl" *)
-  c_obs : res inst            (* the instance the parse returned, or how save / parse ended *)
+  c_obs : res inst;           (* the instance the parse returned, or how save / parse ended *)
+  c_step2 : option (inst * res inst)   (* two-step cases: a second instance saved to the SAME path afterwards and parsed again in the
+                                          same process, with what that parse returned; each step is judged on its own *)
 }.
+
+Definition step2_all (f : inst -> res inst -> bool) (c : case) : bool :=
+  match c.(c_step2) with Some (y, o) => f y o | None => true end.
 
 (* the generator stays inside the property's quantifier *)
 Definition in_scope (c : case) : bool :=
-  in_quantifier c.(c_schema) c.(c_inst) && str_in c.(c_suffix) four_suffixes.
+  in_quantifier c.(c_schema) c.(c_inst) && str_in c.(c_suffix) four_suffixes
+  && step2_all (fun y _ => in_quantifier c.(c_schema) y) c.
 
 (* the route (constructor config_path= / --config_path, parse() un-rooted / ArgumentParser dest-keyed) is not part of the case:
    the model gives one answer for all of them, and the rooted and un-rooted models must agree *)
-Definition model_ok (c : case) : bool :=
-  res_eqb inst_eqb (config_loop_gen c.(c_suffix) c.(c_schema) c.(c_inst)) c.(c_obs)
-  && res_eqb inst_eqb (config_loop_rooted_gen "cfg" c.(c_suffix) c.(c_schema) c.(c_inst)) c.(c_obs).
+Definition model_step (c : case) (x : inst) (o : res inst) : bool :=
+  res_eqb inst_eqb (config_loop_gen c.(c_suffix) c.(c_schema) x) o
+  && res_eqb inst_eqb (config_loop_rooted_gen "cfg" c.(c_suffix) c.(c_schema) x) o.
 
-Definition spec_ok (c : case) : bool := spec_loop c.(c_schema) c.(c_inst) c.(c_obs).
+Definition model_ok (c : case) : bool := model_step c c.(c_inst) c.(c_obs) && step2_all (model_step c) c.
+
+Definition spec_ok (c : case) : bool :=
+  spec_loop c.(c_schema) c.(c_inst) c.(c_obs) && step2_all (spec_loop c.(c_schema)) c.
